@@ -109,6 +109,41 @@ def np_laplacian_periodic(a, widths):
     return out
 
 
+def np_divergence(g, widths, per):
+    """independent evaluation of the documented divergence of a gradient field given per bin (shape n_0 x ... x nd): at the
+    vertex idx, for each direction d, the difference between the bins above and below the vertex along d, averaged over the
+    2^(nd-1) bins that share the vertex in the other directions, divided by the width; bins beyond a non-periodic edge count
+    as zero, periodic directions wrap"""
+    import itertools
+    nd = g.ndim - 1
+    n = g.shape[:nd]
+    pn = [n[d] + (0 if per[d] else 1) for d in range(nd)]
+    div = np.zeros(pn)
+
+    def cellval(cell, d):
+        c = list(cell)
+        for k in range(nd):
+            if per[k]:
+                c[k] %= n[k]
+            elif c[k] < 0 or c[k] >= n[k]:
+                return 0.0
+        return float(g[tuple(c) + (d,)])
+    for idx in itertools.product(*[range(p_) for p_ in pn]):
+        tot = 0.0
+        for d in range(nd):
+            others = [o for o in range(nd) if o != d]
+            acc = 0.0
+            for offs in itertools.product((-1, 0), repeat=len(others)):
+                hi, lo = list(idx), list(idx)
+                lo[d] = idx[d] - 1
+                for o, of in zip(others, offs):
+                    hi[o] = lo[o] = idx[o] + of
+                acc += cellval(hi, d) - cellval(lo, d)
+            tot += acc / (2 ** (nd - 1)) / widths[d]
+        div[idx] = tot
+    return div
+
+
 def parse_multicol(text, nd):
     rows = []
     for line in text.splitlines():
@@ -297,7 +332,7 @@ def job_resid(rng, name, nd, per, small):
         lines += ["multicol m"]
     lines += ["end"]
     return dict(law="resid", name=name, dims=dims, tol=tol, itmax=itmax, smoothed=smoothed, full=full, mins=mins,
-                small=bool(small), density=density, text="\n".join(lines) + "\n")
+                small=bool(small), density=density, text="\n".join(lines) + "\n", counts=counts.tolist(), sums=sums.tolist())
 
 
 def jobs_conv(rng, fam, nd, per, thorough):
@@ -601,6 +636,19 @@ def eval_resid(job, events):
         else:
             res.append(("inconc", "", "iteration budget exhausted (%d unknowns)" % nt, None))
         return res
+    if job.get("counts") is not None and int(np.prod(pnx)) <= 4000:
+        # the right-hand side itself, against the documented formula evaluated from the loaded data (several grids of different
+        # widths are processed by one process)
+        g = bin_values(np.array(job["counts"]), np.array(job["sums"]), 1, job["smoothed"], job["full"], job["mins"])
+        dref = np_divergence(g, widths, per).reshape(-1)
+        dn = float(np.linalg.norm(dref))
+        dev = float(np.linalg.norm(dref - div))
+        if dev > 1e-10 * max(dn, 1e-300) + 1e-12:
+            res.append(("viol", "resid:%s:%s:%s:divergence_formula" % (D, P, cls),
+                        "divergence computed by the library differs from the documented formula evaluated on the same data: |diff| = %.3g, "
+                        "|div| = %.3g (grid %s, widths %s)" % (dev, dn, list(b["gnx"]), widths), None))
+            return res
+        res.append(("ok", "", "", ("resid", D, P, "divergence_formula:" + cls)))
     if r_code > bound:
         res.append(("viol", "resid:%s:%s:%s:own_operator" % (D, P, cls),
                     "|L.A - div|/|div| = %.3g with the library's operator, solver tolerance %.3g (reported %.3g after %d iterations)"
